@@ -129,6 +129,53 @@ func runStream(window, peersDelay, spacing, length time.Duration) (*streamResult
 	return res, nil
 }
 
+// runDouble: two membership changes one refresh apart - the second is announced while the refresh caused by the first is
+// waiting for its (already evaluated) answer.  Its announcement is then the only thing that can make the proxy look
+// again: Topology.tla's PEvent arms a new refresh for every announcement that finds none pending.
+func runDouble(window, peersDelay time.Duration) (*streamResult, error) {
+	t := tracer.New()
+	e, err := env.Start(env.Options{Nodes: 3, NumConns: 1, Hooks: false, Tracer: t, Keyspaces: []string{"ks"},
+		RefreshWindow: window, ReconnectBase: 20 * time.Millisecond, ReconnectMax: 100 * time.Millisecond,
+		HeartBeat: 30 * time.Second, Idle: 60 * time.Second, ConnectTimeout: 2 * time.Second})
+	if err != nil {
+		return nil, err
+	}
+	defer e.Close()
+	res := &streamResult{WindowMs: window.Milliseconds(), PeersDelayMs: peersDelay.Milliseconds(), AddedRoutedMs: -1, RemovedGoneMs: -1, Note: "double"}
+	cl, err := e.StartedClient(primitive.ProtocolVersion4, "")
+	if err != nil {
+		return nil, err
+	}
+	defer cl.Close()
+	name := map[string]string{}
+	for i := 1; i <= 5; i++ {
+		name[fakecql.IP(env.Block(), i)] = fmt.Sprintf("h%d", i)
+	}
+	var seq int16
+	var tok int
+	inet := func(i int) *primitive.Inet {
+		return &primitive.Inet{Addr: []byte{127, 0, byte(env.Block()), byte(i)}, Port: int32(e.C.Port)}
+	}
+	atomic.StoreInt64((*int64)(&e.C.PeersDelay), int64(peersDelay))
+	_ = e.C.AddNode(fakecql.IP(env.Block(), 4))
+	e.C.EmitEvent("t", "topology", &message.TopologyChangeEvent{ChangeType: primitive.TopologyChangeTypeNewNode, Address: inet(4)})
+	// the refresh starts one window later and then waits peersDelay for the answer it was given at once
+	time.Sleep(window + peersDelay/2)
+	_ = e.C.AddNode(fakecql.IP(env.Block(), 5))
+	t0 := time.Now()
+	e.C.EmitEvent("t", "topology", &message.TopologyChangeEvent{ChangeType: primitive.TopologyChangeTypeNewNode, Address: inet(5)})
+	res.EventsSent = 2
+	for time.Since(t0) < 3*time.Second {
+		got := hdProbe(cl, name, &seq, &tok, 10)
+		if got["h5"] && got["h4"] {
+			res.AddedRoutedMs = time.Since(t0).Milliseconds()
+			break
+		}
+		time.Sleep(25 * time.Millisecond)
+	}
+	return res, nil
+}
+
 func init() {
 	register("stream", func(args []string) error {
 		fs := flag.NewFlagSet("stream", flag.ExitOnError)
@@ -137,7 +184,15 @@ func init() {
 		peers := fs.Int("peersdelay", 60, "delay of every system.peers answer (ms)")
 		spacing := fs.Int("spacing", 25, "spacing of the announcements (ms)")
 		length := fs.Int("length", 3000, "length of the stream (ms)")
+		double := fs.Bool("double", false, "two changes one refresh apart instead of a stream")
 		_ = fs.Parse(args)
+		if *double {
+			res, err := runDouble(time.Duration(*window)*time.Millisecond, time.Duration(*peers)*time.Millisecond)
+			if err != nil {
+				return err
+			}
+			return writeJSON(*out, res)
+		}
 		res, err := runStream(time.Duration(*window)*time.Millisecond, time.Duration(*peers)*time.Millisecond,
 			time.Duration(*spacing)*time.Millisecond, time.Duration(*length)*time.Millisecond)
 		if err != nil {
